@@ -113,7 +113,7 @@ def own_state(run, ctx):
                 g = (f.get("gargs") or ["?"])[0]
                 if g in allowed:
                     cnt += 1
-                    if sp not in allowed[g]:
+                    if not ctx.facts.owned_by(sp, allowed[g]):
                         run.violation(fam, label, "%s/push-%s" % (sp, g), "%s:%d" % (t["span"]["file"], t["span"]["line"]),
                                       "Vec<%s>::push in %s: only %s may grow that vector (depth cap / undo-log bookkeeping)" % (g, sp, sorted(allowed[g])))
     run.floor(fam, label, "src/vm.rs", cnt, 2, "Vec<Branch>/Vec<Save> push sites")
